@@ -1064,9 +1064,11 @@ fn main() {
     let run_secs = t0.elapsed().as_secs_f64();
 
     // confirm hangs with the blocking executor: every corpus hang and the first few others
+    // (all confirmations run concurrently, each in its own child process)
     let mut confirmed = 0u32;
     let mut confirm_failed = 0u32;
     let mut budget = if args.thorough() { 6 } else { 3 };
+    let mut to_confirm = vec![];
     for i in 0..results.len() {
         if results[i] != "HANG" {
             continue;
@@ -1078,7 +1080,17 @@ fn main() {
         if !is_corpus {
             budget -= 1;
         }
-        let (hung, what) = confirm_hang(&texts[i], 4);
+        to_confirm.push(i);
+    }
+    let handles: Vec<_> = to_confirm
+        .iter()
+        .map(|&i| {
+            let case = texts[i].clone();
+            std::thread::spawn(move || (i, confirm_hang(&case, 4)))
+        })
+        .collect();
+    for h in handles {
+        let (i, (hung, what)) = h.join().expect("confirm thread");
         if hung {
             confirmed += 1;
         } else {
